@@ -34,7 +34,14 @@ func GenLockScript(r *Rng, hist map[string]int) []string {
 				add("probeclose")
 				hist["lock_probe_close"]++
 			}
-			add("close")
+			if c.io == 0 && r.Chance(1, 3) {
+				// a Close that reports an I/O error (one data file cannot be synced) releases the lock all the same
+				add("closefail %d", r.Intn(8))
+				hist["lock_close_with_io_error"]++
+				add("openchild %s", genCfg(r, o2, hist))
+			} else {
+				add("close")
+			}
 			if r.Chance(1, 2) {
 				add("openbad %s", genCfg(r, o2, hist))
 				hist["lock_openbad"]++
@@ -72,6 +79,12 @@ func GenLockScript(r *Rng, hist map[string]int) []string {
 	}
 	add("dump")
 	add("files")
+	if c.io == 0 && r.Chance(1, 2) {
+		add("closefail %d", r.Intn(8))
+		hist["lock_close_with_io_error"]++
+		add("openchild %s", genCfg(r, o2, hist))
+		return out
+	}
 	add("probeclose")
 	add("close")
 	return out
